@@ -104,6 +104,11 @@ class SymEval:
             if isinstance(l, (Lin, int)) and isinstance(r, (Lin, int)):
                 return lin(l) + lin(r) if isinstance(e.op, ast.Add) else lin(l) - lin(r)
             raise SymError(f"arithmetic on {l!r}, {r!r}")
+        if isinstance(e, ast.UnaryOp) and isinstance(e.op, (ast.USub, ast.UAdd)):
+            v = self.ev(e.operand)
+            if isinstance(v, (Lin, int)):
+                return Lin(0) - lin(v) if isinstance(e.op, ast.USub) else lin(v)
+            raise SymError(f"sign of {v!r}")
         if isinstance(e, ast.Subscript):
             b = self.ev(e.value)
             if not isinstance(b, Seq):
@@ -111,11 +116,20 @@ class SymEval:
             if isinstance(e.slice, ast.Slice):
                 if e.slice.step is not None:
                     raise SymError("stepped slice")
-                lo = b.lo + (self.ev(e.slice.lower) if e.slice.lower is not None else 0)
-                if e.slice.upper is None:
-                    hi = b.hi
-                else:
-                    hi = b.lo + self.ev(e.slice.upper)
+                def bound(x):
+                    """offset from the start of the original for a slice bound; a negative bound counts from the end (x[-0:] is x[0:])"""
+                    v = lin(self.ev(x))
+                    if not v.t and v.c == 0:
+                        return b.lo
+                    if all(c >= 0 for c in v.t.values()) and v.c >= 0:
+                        return b.lo + v
+                    if all(c <= 0 for c in v.t.values()) and v.c <= 0:
+                        if b.hi == END:
+                            raise SymError("negative bound on an open sequence")
+                        return b.hi + v
+                    raise SymError(f"sign of the slice bound {v!r} is not decided on this path")
+                lo = bound(e.slice.lower) if e.slice.lower is not None else b.lo
+                hi = b.hi if e.slice.upper is None else bound(e.slice.upper)
                 return Seq(lo, hi)
             return Elem(b.lo + self.ev(e.slice))
         if isinstance(e, ast.Call) and isinstance(e.func, ast.Name) and e.func.id == "len" and len(e.args) == 1:
@@ -346,7 +360,7 @@ def run(an: Analysis, rep):
     rep.rule("R04.7", "len(args)", 1)
     from .common import purity
     rep.run(purity, an, rep, "R04.P", ["from_code", "parameters", "args_len"])
-    for fn in (r041, r042, r043, r044, r045, r046, r047):
+    for fn in (r041, r042, r043, r044, r045, r046, r046_kind, r047):
         rep.run(fn, an, rep)
     from .common import SharedRules
     from . import c11
@@ -672,6 +686,69 @@ def r046(an, rep):
         want = {0: "None", 1: "raise", 2: "Function"}[len(sub)]
         rep.add("R04.6", f"{top.qual}::kind for flags {sorted(sub) or '{}'}", outcome == want, loc(top.module, chain),
                 f"-> {outcome}" if outcome == want else f"code with function flags {sorted(sub)} decodes as {outcome}; expected {want}")
+
+
+def r046_kind(an, rep):
+    """Function.type is exactly the one function-type flag the code carries (None without one): evaluated over every flag subset the
+    compiler can produce for a function (at most one of the type flags)."""
+    from sa.feval import BlockEval, BlockOutcome
+    fnc = an.prog.cls("code_data::Function")
+    t = an.tg.field_type(fnc.field("type"))
+    lits = set()
+    for x in (t[1] if t[0] == "union" else [t]):
+        if x[0] == "literal":
+            lits |= set(x[1])
+    m = an.prog.module("code_data._code_data")
+    sets = {}
+    for name, exprs in m.assigns.items():
+        if len(exprs) == 1 and isinstance(exprs[0], ast.Set):
+            sets[name] = {e.value for e in exprs[0].elts if isinstance(e, ast.Constant)}
+    top = None
+    for f in an.closure("from_code"):
+        if any(isinstance(n, ast.Call) and isinstance(n.func, ast.Name) and n.func.id == "Function" for n in ast.walk(f.node)):
+            top = f
+    if top is None:
+        raise AnalysisError("function-kind inference not recognised")
+    chain = None
+    for st in top.node.body:
+        if isinstance(st, ast.If) and any(isinstance(n, ast.Call) and isinstance(n.func, ast.Name) and n.func.id == "Function" for n in ast.walk(st)):
+            chain = st
+    call = next(n for n in ast.walk(chain) if isinstance(n, ast.Call) and isinstance(n.func, ast.Name) and n.func.id == "Function")
+    fields = [fl.name for fl in fnc.fields]
+    targ = None
+    if len(call.args) > fields.index("type"):
+        targ = call.args[fields.index("type")]
+    for k in call.keywords:
+        if k.arg == "type":
+            targ = k.value
+    if targ is None:
+        rep.add("R04.6", f"{top.qual}::Function.type is passed", False, loc(top.module, call), "Function(...) is built without a type: every generator / coroutine decodes as a plain function")
+        return
+    flagvar = None
+    for n in ast.walk(inline_locals(top.node, chain.test)):
+        if isinstance(n, ast.Name) and n.id not in sets and n.id not in ("len",):
+            flagvar = n.id
+    for tset in [set()] + [{x} for x in sorted(lits)]:
+        env = {k: frozenset(v) for k, v in sets.items()}
+        env[flagvar] = set({"NEWLOCALS", "OPTIMIZED"} | tset)
+        env.update({"constants": (), "args": "<args>", "len": len})
+        be = BlockEval(lambda name: None, extra={})
+        want = next(iter(tset)) if tset else None
+        try:
+            # the assignment(s) before the chain that the chain test reads (e.g. fn_flags = flags_data & FN_FLAGS)
+            pre = [st for st in top.node.body[:top.node.body.index(chain)] if isinstance(st, ast.Assign) and len(st.targets) == 1 and isinstance(st.targets[0], ast.Name)
+                   and any(isinstance(x, ast.Name) and x.id == st.targets[0].id for x in ast.walk(chain.test))]
+            be.run_block(pre, env)
+            env2, hit = be.run_block([chain], env, stop=call)
+            got = be.ev(targ, env2) if hit else "<Function(...) not reached>"
+            left = set(env2.get(flagvar, set())) & lits
+        except BlockOutcome as o:
+            got, left = f"<{o.kind}: {norm_src(o.node)[:60]}>", set()
+        except FevalError as ex:
+            raise AnalysisError(f"{top.qual}: function-type inference not evaluable for flags {sorted(tset)}: {ex}")
+        ok = got == want
+        rep.add("R04.6", f"{top.qual}::Function.type for type flags {sorted(tset) or '{}'}", ok, loc(top.module, call),
+                f"-> {got!r}" if ok else f"a function whose code carries {sorted(tset) or 'none'} of the function-type flags decodes with type={got!r}; inspect classifies it as {want!r}")
 
 
 def _schema_enum(an):
